@@ -15,6 +15,7 @@ import (
 	"sort"
 	"strconv"
 	"strings"
+	"sync"
 	"time"
 
 	"github.com/hyperjumptech/grule-rule-engine/ast"
@@ -48,6 +49,7 @@ type CallCfg struct {
 	Flag     bool   `json:"flag"`     // ReturnErrOnFailedRuleEvaluation
 	CancelAt int    `json:"cancelAt"` // observable point at which the context is cancelled (-1 never, 0 before the call)
 	Deadline bool   `json:"deadline"` // use an already expired deadline instead of cancel (CancelAt == 0)
+	NestAt   int    `json:"nestAt"`   // the NestAt-th fact-method call of the run executes another, independent rule set on the SAME engine value (0 never)
 	UseCtx   bool   `json:"useCtx"`   // ExecuteWithContext instead of Execute
 }
 
@@ -80,6 +82,29 @@ type tracer struct {
 	mute    bool
 	shadow  *[]string // event summary for listener-consistency checks
 	primary bool
+	nesting *bool // true while a nested run on the same engine value is in progress: its events are not this run's
+}
+
+type nestFact struct{ X int64 }
+
+var nestLib = func() *ast.KnowledgeLibrary {
+	lib := ast.NewKnowledgeLibrary()
+	must(builder.NewRuleBuilder(lib).BuildRuleFromResource("nest", "1", pkg.NewBytesResource([]byte(
+		`rule Inner { when I.X < 2 then I.X = I.X + 1; }`))))
+	return lib
+}()
+var nestMu sync.Mutex
+
+func nestedRun(eng *engine.GruleEngine) {
+	nestMu.Lock()
+	kb, err := nestLib.NewKnowledgeBaseInstance("nest", "1")
+	nestMu.Unlock()
+	if err != nil {
+		panic(err)
+	}
+	dc := ast.NewDataContext()
+	dc.Add("I", &nestFact{})
+	_ = eng.ExecuteWithContext(context.Background(), dc, kb)
 }
 
 func (l *tracer) note(s string) {
@@ -88,6 +113,9 @@ func (l *tracer) note(s string) {
 	}
 }
 func (l *tracer) BeginCycle(ctx context.Context, c uint64) {
+	if l.nesting != nil && *l.nesting {
+		return
+	}
 	l.note(fmt.Sprintf("c%d", c))
 	if !l.primary {
 		return
@@ -96,6 +124,9 @@ func (l *tracer) BeginCycle(ctx context.Context, c uint64) {
 	l.gate("cycle")
 }
 func (l *tracer) EvaluateRuleEntry(ctx context.Context, c uint64, e *ast.RuleEntry, can bool) {
+	if l.nesting != nil && *l.nesting {
+		return
+	}
 	l.note(fmt.Sprintf("e%d:%s:%v", c, e.RuleName, can))
 	if !l.primary {
 		return
@@ -104,6 +135,9 @@ func (l *tracer) EvaluateRuleEntry(ctx context.Context, c uint64, e *ast.RuleEnt
 	l.gate("eval")
 }
 func (l *tracer) ExecuteRuleEntry(ctx context.Context, c uint64, e *ast.RuleEntry) {
+	if l.nesting != nil && *l.nesting {
+		return
+	}
 	l.note(fmt.Sprintf("x%d:%s", c, e.RuleName))
 	if !l.primary {
 		return
@@ -273,9 +307,25 @@ func runCall(c *Case, ci int, kb *ast.KnowledgeBase, em *Emitter, watchdog time.
 	}
 	site := 0
 	cancelled := false
+	nesting := false
+	methodCalls := 0
+	var eng *engine.GruleEngine
 	gate := func(kind string) {
+		if nesting {
+			return
+		}
 		if c.pre != nil {
 			c.pre()
+		}
+		if cc.NestAt > 0 && strings.HasPrefix(kind, "call:") {
+			methodCalls++
+			if methodCalls == cc.NestAt {
+				// a user method that itself runs rules, on the same engine value and with its own context, facts and
+				// knowledge base: invisible to this run (the tracers are muted while it lasts)
+				nesting = true
+				nestedRun(eng)
+				nesting = false
+			}
 		}
 		site++
 		if cc.CancelAt == site && !cancelled {
@@ -296,10 +346,10 @@ func runCall(c *Case, ci int, kb *ast.KnowledgeBase, em *Emitter, watchdog time.
 	} else if cc.Deadline {
 		em.Emit(J{"ev": "cancel", "site": 0, "kind": "deadline"})
 	}
-	eng := &engine.GruleEngine{MaxCycle: cc.Max, ReturnErrOnFailedRuleEvaluation: cc.Flag}
+	eng = &engine.GruleEngine{MaxCycle: cc.Max, ReturnErrOnFailedRuleEvaluation: cc.Flag}
 	shadows := make([][]string, c.Listener)
 	for i := 0; i < c.Listener; i++ {
-		eng.Listeners = append(eng.Listeners, &tracer{em: em, world: w, gate: gate, shadow: &shadows[i], primary: i == 0})
+		eng.Listeners = append(eng.Listeners, &tracer{em: em, world: w, gate: gate, shadow: &shadows[i], primary: i == 0, nesting: &nesting})
 	}
 	type result struct {
 		err     error
